@@ -175,6 +175,31 @@ func checkCase(c micCase) evid.Outcome {
 		if err != nil || !ok {
 			return evid.Fail("Validate*DataMIC rejects the specification MIC %x (ok=%v err=%v)", want[:], ok, err)
 		}
+		// a history on the frame value that carries the MIC: an edit the library refuses (17 bytes of FOpts), a refused
+		// Set*, the edit taken back - the frame still carries the specification MIC and still validates
+		if m, isData := p.MACPayload.(*lorawan.MACPayload); isData {
+			saved := m.FHDR.FOpts
+			m.FHDR.FOpts = []lorawan.Payload{&lorawan.DataPayload{Bytes: make([]byte, 17)}}
+			var serr error
+			if up {
+				serr = p.SetUplinkDataMIC(ver(c.V11), c.ConfFCnt, c.TxDR, c.TxCh, gen.LibKey(toKey(c.FNwk)), gen.LibKey(toKey(c.SNwk)))
+			} else {
+				serr = p.SetDownlinkDataMIC(ver(c.V11), c.ConfFCnt, gen.LibKey(toKey(c.SNwk)))
+			}
+			m.FHDR.FOpts = saved
+			if serr != nil {
+				var vok bool
+				var verr error
+				if up {
+					vok, verr = p.ValidateUplinkDataMIC(ver(c.V11), c.ConfFCnt, c.TxDR, c.TxCh, gen.LibKey(toKey(c.FNwk)), gen.LibKey(toKey(c.SNwk)))
+				} else {
+					vok, verr = p.ValidateDownlinkDataMIC(ver(c.V11), c.ConfFCnt, gen.LibKey(toKey(c.SNwk)))
+				}
+				if [4]byte(p.MIC) != want || !vok || verr != nil {
+					return evid.Fail("the frame carried the specification MIC %x; after a Set*DataMIC that was refused (%v) for an edit that was then taken back it carries %x and validation answers %v (err %v): a refused call changed the frame", want[:], serr, p.MIC[:], vok, verr)
+				}
+			}
+		}
 		// a MIC differing in one bit must be rejected
 		for bit := 0; bit < 32; bit += 5 {
 			bad := want
@@ -296,6 +321,6 @@ func TestProp(t *testing.T) {
 	r := evid.Begin(t, "C02")
 	defer r.Finish()
 	evid.Rapid(r, t, "data-mic",
-		"rapid: data frames of the four data MTypes (MHDR|MACPayload <= 255 bytes) x random keys (FNwkSIntKey = or != SNwkSIntKey) x MAC version x boundary-biased 32-bit FCnt and ConfFCnt x txDR x txCh; oracle: B0/B1 + own AES-CMAC (RFC 4493 vectors self-checked) over the wire model's serialisation. Checks: Set == reference; Validate true on it, false on single-bit MIC changes; ValidateUplinkDataMICF <=> cmacF half; 4-10 single-input perturbations per case (keys, any FCnt bit, +2^16, DevAddr, confirmed/unconfirmed, direction, payload byte, FPort, flags, ACK, ConfFCnt low/high bits, +k*2^16, txDR, txCh, version) and the opposite direction's validator with a shared key, where validation of the original MIC must answer exactly whether the reference MIC is unchanged. Non-trivial: message longer than one AES block and (FCnt >= 2^16 or ACK with ConfFCnt != 0).",
+		"rapid: data frames of the four data MTypes (MHDR|MACPayload <= 255 bytes) x random keys (FNwkSIntKey = or != SNwkSIntKey) x MAC version x boundary-biased 32-bit FCnt and ConfFCnt x txDR x txCh; oracle: B0/B1 + own AES-CMAC (RFC 4493 vectors self-checked) over the wire model's serialisation. Checks: Set == reference; Validate true on it, false on single-bit MIC changes; a Set* refused for an edit that is then taken back leaves the MIC the frame carried; a frame received in a loop (value kept while its variable decodes the next frame) validates; ValidateUplinkDataMICF <=> cmacF half; 4-10 single-input perturbations per case (keys, any FCnt bit, +2^16, DevAddr, confirmed/unconfirmed, direction, payload byte, FPort, flags, ACK, ConfFCnt low/high bits, +k*2^16, txDR, txCh, version) and the opposite direction's validator with a shared key, where validation of the original MIC must answer exactly whether the reference MIC is unchanged. Non-trivial: message longer than one AES block and (FCnt >= 2^16 or ACK with ConfFCnt != 0).",
 		60000, 3000000, genCase, checkCase)
 }
